@@ -21,34 +21,68 @@ namespace BV
     anything — leaves every file exactly as it was -/
 theorem C06_all_or_nothing (fs : FS) (fps : List (Str × List CPat)) (v : VInfo) (e : RwErr)
     (h : (rewriteFiles fs fps v).2 = .error e) : (rewriteFiles fs fps v).1 = fs := by
-  sorry
+  unfold rewriteFiles at h ⊢
+  split
+  · rfl
+  · rename_i ws hws
+    rw [hws] at h
+    cases h
 
 /-- the rewrite phase fails iff some configured file is missing or some file fails to validate,
     and the first such file (in configuration order) decides the error -/
 theorem C06_error_iff (fs : FS) (fps : List (Str × List CPat)) (v : VInfo) :
     (∃ e, (rewriteFiles fs fps v).2 = .error e) ↔
       ∃ fp ∈ fps, lookup fp.1 fs = none ∨ ∃ c e, lookup fp.1 fs = some c ∧ rewriteContent fp.2 v c = .error e := by
-  sorry
+  rw [← planWrites_error_iff]
+  unfold rewriteFiles
+  cases planWrites fs v fps with
+  | error e => simp
+  | ok ws => simp
 
 /-- success writes exactly the validated contents, and only to configured paths -/
 theorem C06_success_writes (fs : FS) (fps : List (Str × List CPat)) (v : VInfo)
     (h : (rewriteFiles fs fps v).2 = .ok ()) :
     ∀ fp ∈ fps, ∃ c, lookup fp.1 fs = some c ∧ ∃ c', rewriteContent fp.2 v c = .ok c' := by
-  sorry
+  intro fp hfp
+  have hne : ¬ ∃ e, (rewriteFiles fs fps v).2 = .error e := by
+    rintro ⟨e, he⟩
+    rw [h] at he
+    cases he
+  rw [C06_error_iff] at hne
+  cases hl : lookup fp.1 fs with
+  | none => exact absurd ⟨fp, hfp, .inl hl⟩ hne
+  | some c =>
+    refine ⟨c, rfl, ?_⟩
+    cases hr : rewriteContent fp.2 v c with
+    | error e => exact absurd ⟨fp, hfp, .inr ⟨c, e, hl, hr⟩⟩ hne
+    | ok c' => exact ⟨c', rfl⟩
 
 /-- a missing pattern is an error of the file: if some configured pattern of a file has no
     surviving match, `rewriteLines` fails (so the whole phase fails by `C06_error_iff`) -/
 theorem C06_missing_pattern_fails (pats : List CPat) (v : VInfo) (lines : List Str) (ms : List PMatch)
     (hm : iterMatches lines pats = some ms) (p : CPat) (hp : p ∈ pats) (hno : ∀ m ∈ ms, m.pat ≠ p) :
     ∃ e, rewriteLines pats v lines = .error e := by
-  sorry
+  cases hr : rewriteLines pats v lines with
+  | error e => exact ⟨e, rfl⟩
+  | ok new =>
+    obtain ⟨ms', hms', -, hall⟩ := rewriteLines_ok hr
+    rw [hm] at hms'
+    cases hms'
+    rw [List.all_eq_true] at hall
+    have := hall p hp
+    rw [List.any_eq_true] at this
+    obtain ⟨m, hmem, hmp⟩ := this
+    exact absurd (by simpa using hmp) (hno m hmem)
 
 /-- nothing is committed, tagged or pushed after a failed rewrite phase (Model/Plan.lean: the
     run stops before the `rewrite` event and the exit code is non-zero) -/
 theorem C06_no_vcs_after_failure (c : PlanCfg) (a : PlanCli) (e : PlanEnv)
     (hr : e.rewriteOk = false) :
     (plan c a e).2 = 1 ∧ ∀ ev ∈ (plan c a e).1, ev ≠ .rewrite ∧ ev.mutating = false ∧ ev.isHook = false := by
-  sorry
+  obtain ⟨hcode, hall⟩ := plan_rewrite_fail c a e hr
+  refine ⟨hcode, fun ev hev => ?_⟩
+  rcases hall ev hev with (rfl | rfl | rfl | ⟨-, rfl | rfl | rfl⟩) | rfl <;>
+    simp [Ev.mutating, Ev.isHook]
 
 /-- the defect that was repaired (DESIGN.md D5): the lazy loop wrote the files before the failing
     one.  Witness on the model of the old loop: two files, the second one missing. -/
